@@ -174,6 +174,9 @@ class RungeKuttaIntegrator(TableauIntegrator, abc.ABC):
                 self.stage_values[...,0] = self.final_rhs
         else:
             self.initial_rhs = rhs(initial_time, initial_state, **constants)
+        # every attempt below overwrites final_rhs: the cached slope belongs to (final_time, final_state)
+        # again only once this call has completed, not if it is abandoned by an exception
+        self.final_time = None
 
         if self.is_implicit and self.__rhs_jac is None:
             self.__rhs_jac = rhs.jac(initial_time, initial_state, **constants)
